@@ -115,6 +115,13 @@ def apply_op(s, op, v):
         return s + pick(["; DROP TABLE t", ";", "; SELECT * FROM t", ";;", "; --"])
     if op == "comment":
         return pick([s.replace(" FROM", " /* c */ FROM", 1), s + " -- trailing", "/* open " + s, s.replace("SELECT", "SELECT /*+ hint */", 1), "-- only a comment"])
+    if op == "comment_quote":
+        # quotes and parentheses inside comments: whoever scans the text for clauses must not be fooled by
+        # them (the parser keeps the comments that follow SELECT in the statement's text and drops the others)
+        after_select = lambda c: s.replace("SELECT", "SELECT /* %s */" % c, 1)
+        before_from = lambda c: s.replace(" FROM", " /* %s */ FROM" % c, 1)
+        return [after_select("don't cache"), after_select('"x'), before_from("it's"), after_select("(from"), after_select("it's ("),
+                before_from("(from"), after_select("`"), after_select("x' ) (")][v % 8]
     if op == "empty_in":
         return pick([s.replace(" FROM t", " FROM t WHERE a IN ()", 1), s.replace(" FROM t", " FROM t WHERE a IN (SELECT)", 1), s.replace(" FROM t", " FROM t WHERE a IN (SELECT a, b FROM u)", 1),
                      s.replace(" FROM t", " FROM t WHERE a IN (SELECT f FROM u)", 1), s.replace(" FROM t", " FROM t WHERE a NOT IN (SELECT a FROM u)", 1),
